@@ -1218,7 +1218,14 @@ func EvalProgram(progSrc string, files []InputFile, rootSelectors []string, stdo
 						// the selector executed exit (or next): the run is over
 						return &ev, nil
 					}
-					rootCells = append(rootCells, cell)
+					// the root is the selected value, exactly as if it had been
+					// assigned with BEGINFILE { $ = selector } (in particular a
+					// missing member is a plain null, not a speculative one)
+					rootCell, err := copyValue(cell, &Cell{})
+					if err != nil {
+						return &ev, ev.error(Token{}, err.Error())
+					}
+					rootCells = append(rootCells, rootCell)
 				}
 			} else {
 				rootCells = append(rootCells, NewCell(NewValue(rootValue)))
